@@ -80,15 +80,19 @@ def edits_for(rng, old, new):
     s = 0
     while s < len(old) - p and s < len(new) - p and old[len(old) - 1 - s] == new[len(new) - 1 - s]:
         s += 1
-    # never split a CR LF pair or a surrogate: move to safe boundaries
-    while p > 0 and (old[p - 1] == "\r" or (p < len(old) and old[p] == "\n" and old[p - 1] == "\r")):
+    # never split a CR LF pair (in the old, the new or any intermediate text): a lone CR is outside
+    # the protocol domain of the property; shrink the common prefix/suffix to safe boundaries
+    def unsafe_prefix(t, k):
+        return 0 < k <= len(t) and t[k - 1] == "\r"
+    while p > 0 and (unsafe_prefix(old, p) or unsafe_prefix(new, p)):
         p -= 1
-    while s > 0 and (old[len(old) - s] == "\n" and len(old) - s - 1 >= 0 and old[len(old) - s - 1] == "\r"):
+
+    def unsafe_suffix(t, k):          # the suffix of length k starts with LF preceded by CR
+        return 0 < k <= len(t) and t[len(t) - k] == "\n" and len(t) - k - 1 >= 0 and t[len(t) - k - 1] == "\r"
+    while s > 0 and (unsafe_suffix(old, s) or unsafe_suffix(new, s)):
         s -= 1
-    if p > len(new) - s:
-        s = len(new) - p if len(new) - p >= 0 else 0
-        if p > len(old) - s:
-            return [{"text": new}]
+    if p + s > len(old) or p + s > len(new):
+        return [{"text": new}]
     a, b = p, len(old) - s
     mid = new[p:len(new) - s]
     if style == "two-step" and b > a:
@@ -189,9 +193,11 @@ def replay_history(tag, hist, seed, compare_spec=True):
                 new = TEXT[ev["t"]]
                 ch = edits_for(rng, client[u], new)
                 cur = client[u]
+                lone_cr = False
                 for c in ch:
                     cur = apply_client(cur, c)
-                if cur != new:           # the edit script generator itself must be right
+                    lone_cr = lone_cr or any(cur[k] == "\r" and cur[k + 1:k + 2] != "\n" for k in range(len(cur)))
+                if cur != new or lone_cr:           # the edit script generator itself must stay inside the domain
                     ch = [{"text": new}]
                 s.change(ws.uri(u), ch)
                 scripts.append({"op": "change", "uri": ws.uri(u), "changes": [
@@ -330,7 +336,7 @@ def run(tier):
         "finds a history with a stale diagnostic" if not rp.ok else "FAILED to find the stale-diagnostic history")
     if rp.ok:
         raise common.ToolError("self-test: TLC no longer finds the stale-diagnostic history in the pinned design")
-    replays = r.lines.get("REPLAY", [])
+    replays = sorted(r.lines.get("REPLAY", []), key=lambda x: json.dumps(x, sort_keys=True))   # TLC's output order is not deterministic
     n_all = len(replays)
     nrep = 250 if tier == "quick" else 4000
     if len(replays) > nrep:
